@@ -43,6 +43,7 @@ structure Tables where
   condByIdentity : Bool
   writerIntKinds : List String
   anonAmongOthers : Bool
+  metaArgsUnchecked : Bool
   reflectOptionalRefused : Bool
   eventVarsEmpty : Bool
   symbolBaseEnum : Bool
